@@ -847,7 +847,7 @@ def _group_func_wrap(
             counts,
         )
 
-    if orig_type.kind in "mM":
+    if orig_type.kind in "mM" and not counting:
         result = result.astype(orig_type)
 
     if return_count:
